@@ -278,6 +278,32 @@ class Body:
                 dq.append(s)
         return dst in seen
 
+    def reach_set(self, b):
+        """blocks reachable from b by a non-empty path (cached)"""
+        c = self.__dict__.setdefault("_rs", {})
+        if b not in c:
+            seen = set()
+            dq = deque(self.succs(b))
+            seen.update(dq)
+            while dq:
+                x = dq.popleft()
+                for s in self.succs(x):
+                    if s not in seen:
+                        seen.add(s)
+                        dq.append(s)
+            c[b] = seen
+        return c[b]
+
+    def def_reaches(self, dsite, usite):
+        """can the definition at dsite=(block, idx) execute before the use at usite (ignoring kills)"""
+        (db, di), (ub, ui) = dsite, usite
+        if db == ub:
+            before = (di != T) and (ui == T or di < ui)
+            if before:
+                return True
+            return db in self.reach_set(db)
+        return ub in self.reach_set(db)
+
     def dominated_by_edges(self, block, edges):
         """every path entry -> block traverses one of `edges`"""
         return block not in self.reachable(0, removed_edges=edges)
@@ -618,7 +644,7 @@ def _proj_key(p):
     return out
 
 
-def provenance(body, place, at_block=None, adapters=PURE_ADAPTERS, max_nodes=4000, stop_at=None):
+def provenance(body, place, at=None, adapters=PURE_ADAPTERS, max_nodes=4000, stop_at=None):
     """backward def-use closure: set of origins the value in `place` may come from.
     Origins: ('call', (block, callee), proj) ('arg', n, proj) ('const', repr, '') ('upvar', name, proj)
              ('agg', (block, idx, what), proj) ('bin', (block, idx, op), '') ('other', ..)
@@ -627,14 +653,14 @@ def provenance(body, place, at_block=None, adapters=PURE_ADAPTERS, max_nodes=400
     `stop_at`: optional predicate(term) -> bool: treat the call as an origin even if it is an adapter."""
     origins = set()
     seen = set()
-    work = [(place["l"], tuple(_proj_key(place.get("p"))))]
+    work = [(place["l"], tuple(_proj_key(place.get("p"))), at)]
     defs = body.defs()
     n = 0
     while work:
-        l, proj = work.pop()
-        if (l, proj) in seen:
+        l, proj, site = work.pop()
+        if (l, proj, site) in seen:
             continue
-        seen.add((l, proj))
+        seen.add((l, proj, site))
         n += 1
         if n > max_nodes:
             origins.add(("other", "budget", ""))
@@ -655,6 +681,9 @@ def provenance(body, place, at_block=None, adapters=PURE_ADAPTERS, max_nodes=400
             # arguments may also be re-assigned; fall through to defs
         ds = defs.get(l, [])
         for (bi, si, k, pay) in ds:
+            if site is not None and not body.def_reaches((bi, si), site):
+                continue
+            here = (bi, si) if at is not None else None
             if k == "assign":
                 lhs_proj = tuple(_proj_key(pay["lhs"].get("p")))
                 # assignment to a sub-place only matters if it is a prefix-compatible path
@@ -666,11 +695,11 @@ def provenance(body, place, at_block=None, adapters=PURE_ADAPTERS, max_nodes=400
                 if rk == "use" or rk == "cast" or rk == "repeat":
                     o = rv["o"]
                     if o["k"] in ("copy", "move"):
-                        work.append((o["pl"]["l"], tuple(_proj_key(o["pl"].get("p"))) + rest))
+                        work.append((o["pl"]["l"], tuple(_proj_key(o["pl"].get("p"))) + rest, here))
                     elif o["k"] == "const":
                         origins.add(("const", const_repr(o), ""))
                 elif rk in ("ref", "rawptr", "discr"):
-                    work.append((rv["pl"]["l"], tuple(_proj_key(rv["pl"].get("p"))) + rest))
+                    work.append((rv["pl"]["l"], tuple(_proj_key(rv["pl"].get("p"))) + rest, here))
                 elif rk == "agg":
                     ak = rv["ak"]
                     fields = rv.get("fields")
@@ -692,13 +721,13 @@ def provenance(body, place, at_block=None, adapters=PURE_ADAPTERS, max_nodes=400
                     if sel is not None:
                         o = ops[sel[0]]
                         if o["k"] in ("copy", "move"):
-                            work.append((o["pl"]["l"], tuple(_proj_key(o["pl"].get("p"))) + tuple(sel[1])))
+                            work.append((o["pl"]["l"], tuple(_proj_key(o["pl"].get("p"))) + tuple(sel[1]), here))
                         elif o["k"] == "const":
                             origins.add(("const", const_repr(o), ""))
                     else:
                         for o in ops:
                             if o["k"] in ("copy", "move"):
-                                work.append((o["pl"]["l"], tuple(_proj_key(o["pl"].get("p")))))
+                                work.append((o["pl"]["l"], tuple(_proj_key(o["pl"].get("p"))), here))
                             elif o["k"] == "const":
                                 origins.add(("const", const_repr(o), ""))
                 elif rk in ("bin", "un"):
@@ -708,7 +737,7 @@ def provenance(body, place, at_block=None, adapters=PURE_ADAPTERS, max_nodes=400
                         if o is None:
                             continue
                         if o["k"] in ("copy", "move"):
-                            work.append((o["pl"]["l"], tuple(_proj_key(o["pl"].get("p")))))
+                            work.append((o["pl"]["l"], tuple(_proj_key(o["pl"].get("p"))), here))
                         elif o["k"] == "const":
                             origins.add(("const", const_repr(o), ""))
                 else:
@@ -721,7 +750,7 @@ def provenance(body, place, at_block=None, adapters=PURE_ADAPTERS, max_nodes=400
                     for a in pay["args"]:
                         if a["k"] in ("copy", "move"):
                             # adapters keep the shape: carry the projection through for the first argument
-                            work.append((a["pl"]["l"], tuple(_proj_key(a["pl"].get("p"))) + (proj if a is pay["args"][0] else ())))
+                            work.append((a["pl"]["l"], tuple(_proj_key(a["pl"].get("p"))) + (proj if a is pay["args"][0] else ()), here))
                         elif a["k"] == "const" and "fn" not in a and "closure" not in a:
                             origins.add(("const", const_repr(a), ""))
                 elif cal == "std::future::get_context":
@@ -1121,3 +1150,87 @@ class VariantFlow:
                 seen.add(s)
                 dq.append(s)
         return seen
+
+
+# ----------------------------------------------------------------- comparison switches
+
+_CMP_OPS = {"Lt", "Le", "Gt", "Ge", "Eq", "Ne"}
+_CMP_CALLS = {"std::cmp::PartialOrd::lt": "Lt", "std::cmp::PartialOrd::le": "Le", "std::cmp::PartialOrd::gt": "Gt",
+              "std::cmp::PartialOrd::ge": "Ge", "std::cmp::PartialEq::eq": "Eq", "std::cmp::PartialEq::ne": "Ne"}
+
+
+def operand_origins(body, o, **kw):
+    """kw: at=(block, idx) use site for partial flow sensitivity (definitions that cannot execute before it are ignored)"""
+    if o["k"] in ("copy", "move"):
+        return provenance(body, o["pl"], **kw)
+    if o["k"] == "const":
+        return {("const", const_repr(o), "")}
+    return set()
+
+
+def cmp_switches(body, **kw):
+    """two-way switches on a comparison: [{block, op, a, b (operands), true_edge, false_edge}]
+    (primitive BinaryOp comparisons and PartialOrd/PartialEq calls; `Not`s folded into the edges)"""
+    out = []
+    for sw in bool_switches(body):
+        r = sw["root"]
+        if not r or r[2] not in ("assign", "call"):
+            continue
+        if r[2] == "assign":
+            rv = r[3]["rv"]
+            if rv["k"] != "bin" or rv["op"] not in _CMP_OPS:
+                continue
+            op, a, b = rv["op"], rv["a"], rv["b"]
+        else:
+            t = r[3]
+            if t["callee"] not in _CMP_CALLS or len(t["args"]) != 2:
+                continue
+            op, a, b = _CMP_CALLS[t["callee"]], t["args"][0], t["args"][1]
+        out.append({"block": sw["block"], "op": op, "a": a, "b": b, "true_edge": sw["true_edge"], "false_edge": sw["false_edge"],
+                    "def_block": r[0], "site": (r[0], r[1])})
+    return out
+
+
+# relation wanted -> {(op as written with (A,B)): edge on which the relation is guaranteed}
+_IMPLY = {
+    "lt": {("Lt", False): "true_edge", ("Ge", False): "false_edge", ("Gt", True): "true_edge", ("Le", True): "false_edge"},
+    "le": {("Le", False): "true_edge", ("Gt", False): "false_edge", ("Ge", True): "true_edge", ("Lt", True): "false_edge",
+           ("Lt", False): "true_edge", ("Gt", True): "true_edge", ("Eq", False): "true_edge", ("Eq", True): "true_edge",
+           ("Ne", False): "false_edge", ("Ne", True): "false_edge"},
+    "eq": {("Eq", False): "true_edge", ("Eq", True): "true_edge", ("Ne", False): "false_edge", ("Ne", True): "false_edge"},
+    "ne": {("Ne", False): "true_edge", ("Ne", True): "true_edge", ("Eq", False): "false_edge", ("Eq", True): "false_edge",
+           ("Lt", False): "true_edge", ("Lt", True): "true_edge", ("Gt", False): "true_edge", ("Gt", True): "true_edge"},
+}
+
+
+def edges_implying(body, rel, is_a, is_b, **kw):
+    """edges on which `A rel B` is guaranteed, where A / B are recognised by predicates over the
+    origin set of a comparison operand.  Returns (edges, switches_considered)"""
+    edges = set()
+    used = []
+    for sw in cmp_switches(body):
+        kw2 = dict(kw)
+        kw2.setdefault("at", sw["site"])
+        oa = operand_origins(body, sw["a"], **kw2)
+        ob = operand_origins(body, sw["b"], **kw2)
+        for swapped, (x, y) in ((False, (oa, ob)), (True, (ob, oa))):
+            if is_a(x) and is_b(y):
+                e = _IMPLY[rel].get((sw["op"], swapped))
+                used.append(sw)
+                if e:
+                    edges.add(sw[e])
+    return edges, used
+
+
+def has_call(origins, pred):
+    return any(o[0] == "call" and pred(o[1][1]) for o in origins)
+
+
+def has_field(origins, kind, name_suffix):
+    """origin is a parameter / upvar (kind 'arg'|'upvar'|None for either) whose projection ends with name_suffix"""
+    for o in origins:
+        if o[0] in ("arg", "upvar") and (kind is None or o[0] == kind):
+            full = ("." + str(o[1]) if o[0] == "upvar" else "") + o[2]
+            if full.endswith(name_suffix):
+                return True
+    return False
